@@ -234,6 +234,17 @@ def run(ctx):
       prob = island.stream_shape_problem(c['h'], len(d), stq)
       if prob:
         ctx.violation('stream-shape', f'client {cl + 1} of instance {ci}: {prob}', replay={'hparams': c['h'], 'n': len(d), 'stream': stq})
+  # ... also for clients far smaller than the batch (a batch wraps around the client's data several times)
+  for n_small in (1, 2, 3, 4):
+    for bs_big in (2, 3, 5, 7, 8, 9):
+      for (ep, stp) in ((2, None), (None, 3), (3, 2)):
+        hsm = {'bs': bs_big, 'epochs': ep, 'steps': stp, 'drop': False, 'seed': 100 * n_small + bs_big + ctx.seed, 'skip': False}
+        dsm = [[[i + 1, -i] for i in range(n_small)]]
+        stq = island.real_streams(fedjax, island.datasets(fedjax, dsm), island.hparams(fedjax, hsm))[0]
+        ctx.case(key=('small-client-stream', n_small, bs_big, ep, stp), nontrivial=bs_big > 2 * n_small)
+        prob = island.stream_shape_problem(hsm, n_small, stq)
+        if prob:
+          ctx.violation('stream-shape', f'a client with {n_small} examples: {prob}', replay={'hparams': hsm, 'n': n_small, 'stream': stq})
   expected = island.oracle(ctx, [c['inst'] for c in cases], 'R')
   runs = []
   pmap_items = {2: [], 3: []}
